@@ -34,11 +34,15 @@ def build(log):
 def scan_forbidden():
     """grep the development for declarations that would add to the trusted base."""
     hits = []
+    listed = {l.strip() for l in open(os.path.join(COQDIR, "_CoqProject"), encoding="utf8") if l.strip().endswith(".v")}
     for root, _, files in os.walk(COQDIR):
         for fn in files:
             if not fn.endswith(".v"):
                 continue
             path = os.path.join(root, fn)
+            rel = os.path.relpath(path, COQDIR)
+            if rel not in listed and not rel.startswith(("Extract", "Generated")):
+                continue            # not part of the development (work in progress, never built)
             in_section = 0
             for i, line in enumerate(open(path, encoding="utf8"), 1):
                 code = re.sub(r"\(\*.*?\*\)", "", line)
@@ -64,6 +68,10 @@ def proof_step(prop_id):
     import glob
     paths = sorted(glob.glob(os.path.join(COQDIR, "Properties", prop_id + ".v")) +
                    glob.glob(os.path.join(COQDIR, "Properties", prop_id + "_*.v")))
+    # only the statement files that are part of the development (listed in _CoqProject, hence built and
+    # checked by `make`); a file that exists on disk but is not listed is work in progress
+    listed = {l.strip() for l in open(os.path.join(COQDIR, "_CoqProject"), encoding="utf8") if l.strip().endswith(".v")}
+    paths = [x for x in paths if os.path.relpath(x, COQDIR) in listed]
     if not paths:
         return dict(ok=False, obligations=0, discharged=0, theorems=[], assumptions={},
                     output="missing Properties/%s.v" % prop_id, files=[])
